@@ -230,7 +230,7 @@ def check_cfg(ctx, rep, f, cfg):
         from . import rules_base, dectree as D
         tr, b = rules_base.get_tree(rep, f, "R1g", "fn:no_overlap")
         if tr is not None:
-            rules_base.expect_equiv(rep, "R1g", "checked-construction gate is Definition 1.4", "gate-predicate", D.expand_bool_leaves(tr), rules_base.no_overlap_ref(), b,
+            rules_base.expect_equiv(rep, "R1g", "checked-construction gate is Definition 1.4", "gate-predicate", D.expand_bool_leaves(tr), [rules_base.no_overlap_ref(i) for i in ("i16", "i32", "i64", "isize")], b,
                                     "the predicate dominating k5 sites (and is_valid) equals the reference form of RN(a+b) == a")
     # R3 nothing outside the crate can build or mutate one
     for s in f.structs:
